@@ -28,6 +28,7 @@ type tokOpts struct {
 	noNonce bool
 	nonce   string
 	extra   M
+	reuse   *hTok // answer the exchange with this already issued token (byte-identical), not a new one
 	claimDev int // 0 none; otherwise a correctly signed token whose iss / aud deviates (invalid for this deployment)
 }
 
@@ -216,7 +217,11 @@ func (w *world) callback(state string, c *issuedCode, o tokOpts, rt string, rs r
 	var tok *hTok
 	if c != nil {
 		o.nonce = c.nonce
-		tok = w.mintWith(o, rng)
+		if o.reuse != nil {
+			tok = o.reuse
+		} else {
+			tok = w.mintWith(o, rng)
+		}
 		if rt != "" {
 			w.regOpaque(rt)
 		}
@@ -980,6 +985,24 @@ func (w *world) scripted(prop string, sc int, rng *mrand.Rand) {
 	switch prop {
 	case "C03":
 		w.pkceLax = sc%3 == 1 // some providers accept a code_challenge and never check the verifier: the binding is the middleware's duty
+		if sc%4 == 3 { // the token endpoint answers a second browser's code with the ID token of the first browser's login (byte-identical:
+			// this instance has verified it before): its nonce is the first login's, the login does not complete
+			oA := w.randomTokOpts(rng, true)
+			oA.expIn = time.Hour
+			if w.fullLogin("/first", oA, "", rng).ok {
+				tokA := w.loginTok[w.b]
+				w.plain("/first-again", reqSpec{}, rng)
+				w.newBrowser()
+				w.visit("/second", reqSpec{note: "second browser initiates"})
+				if ir := w.lastInit[w.b]; ir != nil && tokA != nil {
+					r := w.callback(ir.state, w.authorize(ir), tokOpts{reuse: tokA}, "", reqSpec{note: "own state and code; the provider answers with the ID token of another browser's login"}, rng)
+					if r.ok {
+						T.oracle("C03", "login completed with an ID token issued for another login (its nonce is not the one of this browser's initiation)", nil, w.replay())
+					}
+					T.stat("handler.callback.token-of-another-login")
+				}
+			}
+		}
 		if sc%4 == 1 { // the issued state in another spelling (it is a UUID: case, URN form, braces, no hyphens, padding): not the state issued
 			w.visit("/respelled", reqSpec{note: "initiate"})
 			if ir := w.lastInit[w.b]; ir != nil {
